@@ -1,4 +1,6 @@
+pub mod c17;
 pub mod c19;
+pub mod c20;
 pub mod smoke;
 pub mod tower;
 
@@ -6,7 +8,9 @@ use crate::runner::Ctx;
 
 pub fn dispatch(ctx: &Ctx) -> i32 {
     match ctx.property.as_str() {
+        "C17" => c17::run(ctx),
         "C19" => c19::run(ctx),
+        "C20" => c20::run(ctx),
         "SMOKE" => smoke::run(ctx),
         "C01" | "C02" | "C04" | "C06" | "C07" | "C08" | "C09" | "C11H" => tower::run(ctx),
         other => {
